@@ -21,6 +21,12 @@ Case kinds
              ScipyOptimizeDriver) whose total jacobian has the pattern; colored (fixed or dynamic
              coloring, direct/substitution, optional driver scaling) vs uncolored
              ``compute_totals``; the coloring the driver actually used is exported and certified.
+``requests`` a real Problem with two design variables and two responses whose driver has a total
+             coloring (dynamic or fixed), then a *sequence* of ``compute_totals`` requests (default;
+             ``of`` subset / reordered only; ``wrt`` subset / reordered only; both given; default
+             again; optionally a custom request first).  Every request is compared entry by entry
+             with the same request on an uncolored twin problem: the driver's coloring is valid for
+             exactly one jacobian layout and must never leak into another one.
 ``partial``  colored vs uncolored partials: a component with ``declare_coloring(method='cs')``
              (approximation_scheme.py) and an ``om.ExecComp`` (exec_comp.py) with that pattern.
 """
@@ -313,6 +319,84 @@ def total_problem(case, colored):
     return p, np.array(J)
 
 
+def _lin2_class():
+    import openmdao.api as om
+
+    class Lin2(om.ExplicitComponent):
+        """(y1, y2) = A (x, w) with A split into four declared sparse blocks."""
+
+        def __init__(self, A, m1, n1):
+            super().__init__()
+            self.A, self.m1, self.n1 = A, m1, n1
+
+        def blocks(self):
+            A, m1, n1 = self.A, self.m1, self.n1
+            return {('y1', 'x'): A[:m1, :n1], ('y1', 'w'): A[:m1, n1:],
+                    ('y2', 'x'): A[m1:, :n1], ('y2', 'w'): A[m1:, n1:]}
+
+        def setup(self):
+            m, n = self.A.shape
+            self.add_input('x', np.zeros(self.n1))
+            self.add_input('w', np.zeros(n - self.n1))
+            self.add_output('y1', np.zeros(self.m1))
+            self.add_output('y2', np.zeros(m - self.m1))
+            for (of, wrt), B in self.blocks().items():
+                r, c = np.nonzero(B)
+                if r.size:
+                    self.declare_partials(of, wrt, rows=r, cols=c, val=B[r, c].astype(float))
+
+        def compute(self, inputs, outputs):
+            v = np.concatenate([inputs['x'], inputs['w']])
+            y = self.A @ v
+            outputs['y1'] = y[:self.m1]
+            outputs['y2'] = y[self.m1:]
+    return Lin2
+
+
+def requests_of(case):
+    """The sequence of compute_totals keyword sets of a `requests` case."""
+    seq = [{}, {'of': ['y2']}, {'of': ['y2', 'y1']}, {'wrt': ['w']}, {'wrt': ['w', 'x']},
+           {'of': ['y2'], 'wrt': ['w']}, {'of': ['y2', 'y1'], 'wrt': ['w', 'x']},
+           {'of': ['y1', 'y2'], 'wrt': ['x', 'w']}, {}]
+    if case['first'] == 'wrt':
+        seq = [{'wrt': ['w', 'x']}] + seq
+    elif case['first'] == 'of':
+        seq = [{'of': ['y2', 'y1']}] + seq
+    return seq
+
+
+def requests_problem(case, colored):
+    import openmdao.api as om
+    from openmdao.utils.coloring import _compute_coloring
+    Lin2 = _lin2_class()
+    A = matrix(case)
+    m, n = A.shape
+    m1, n1 = case['split']
+    p = om.Problem()
+    ivc = p.model.add_subsystem('ivc', om.IndepVarComp(), promotes=['*'])
+    ivc.add_output('x', np.zeros(n1))
+    ivc.add_output('w', np.zeros(n - n1))
+    p.model.add_subsystem('c', Lin2(A, m1, n1), promotes=['*'])
+    p.model.add_design_var('x')
+    p.model.add_design_var('w')
+    p.model.add_constraint('y1', lower=0.)
+    p.model.add_constraint('y2', lower=0.)
+    p.driver = om.ScipyOptimizeDriver()
+    if colored:
+        p.driver.declare_coloring(direct=case['direct'], show_summary=False, min_improve_pct=0.)
+        if not case['dyn']:
+            col = _compute_coloring(dense(case), case['mode'], direct=case['direct'])
+            col._row_vars = ['y1', 'y2']
+            col._row_var_sizes = [m1, m - m1]
+            col._col_vars = ['x', 'w']
+            col._col_var_sizes = [n1, n - n1]
+            p.driver.use_fixed_coloring(col)
+    p.setup(mode=case['mode'])
+    p.final_setup()
+    p.run_model()
+    return p
+
+
 def partial_problem(case, colored):
     import openmdao.api as om
     A = matrix(case)
@@ -356,7 +440,10 @@ class C03(Property):
             "dense row and column, ...) up to 40x40, each with a seeded integer matrix, through "
             "_compute_coloring in modes fwd, rev, auto x {direct, substitution} and MNCO_bidir; (total) "
             "real Problems whose total jacobian has the pattern, colored vs uncolored compute_totals "
-            "with fixed or dynamic coloring and optional driver scaling; (partial) colored vs uncolored "
+            "with fixed or dynamic coloring and optional driver scaling; (requests) a colored driver followed by "
+            "a sequence of compute_totals requests with other (of, wrt) layouts - subset / reordered of "
+            "only, wrt only, both, default again, custom first - each compared entry by entry with an "
+            "uncolored twin, in fwd, rev and auto mode; (partial) colored vs uncolored "
             "partials of a cs-approximated component and of an ExecComp. Non-trivial: some color holds "
             "two or more columns/rows or the coloring has subtractions; distinct by canonical case.")
     assumptions = ["matrices hold small integers (and power-of-two scalers) so the float computation of "
@@ -421,6 +508,24 @@ class C03(Property):
     def cases(self, rng, tier):
         quick = tier != 'thorough'
         out = []
+        # targeted family first: a colored driver, then compute_totals requests with other layouts
+        n_req = 14 if quick else 160
+        for i in range(n_req):
+            fam = ['arrow', 'banded', 'blockdiag', 'corners', 'sparse+partial'][i % 5]
+            m, n = rng.randint(4, 9), rng.randint(4, 9)
+            J = family(rng, fam, m, n)
+            for r in range(m):
+                if not J[r].any():
+                    J[r, rng.randrange(n)] = True
+            for c in range(n):
+                if not J[:, c].any():
+                    J[rng.randrange(m), c] = True
+            out.append({'k': 'requests', 'm': m, 'n': n, 'nz': nz_of(J), 'fam': fam,
+                        'vseed': rng.randrange(10 ** 9),
+                        'split': [rng.randint(1, m - 1), rng.randint(1, n - 1)],
+                        'mode': ['fwd', 'rev', 'auto'][i % 3], 'dyn': i % 4 != 3,
+                        'direct': rng.random() < 0.5,
+                        'first': ['default', 'default', 'wrt', 'of'][(i // 3) % 4]})
         if quick:
             out.extend(exhaustive(9, sample_vectors=(rng, 40)))
         else:
@@ -481,6 +586,9 @@ class C03(Property):
                 if case['k'] == 'partial':
                     from common import in_tempdir
                     return in_tempdir(lambda: self.impl_partial(case))
+                if case['k'] == 'requests':
+                    from common import in_tempdir
+                    return in_tempdir(lambda: self.impl_requests(case))
         except Exception as e:
             return {'error': type(e).__name__, 'msg': str(e)[:300]}
         raise Infra('unknown case kind %r' % case.get('k'))
@@ -543,6 +651,37 @@ class C03(Property):
             res['sparsity'] = sparsity_of(col)
         return res
 
+    def impl_requests(self, case):
+        A = matrix(case)
+        m1, n1 = case['split']
+        rows = {'y1': list(range(m1)), 'y2': list(range(m1, case['m']))}
+        cols = {'x': list(range(n1)), 'w': list(range(n1, case['n']))}
+        pu = requests_problem(case, False)
+        pc = requests_problem(case, True)
+        out = []
+        for kw in requests_of(case):
+            ri = [i for v in kw.get('of', ['y1', 'y2']) for i in rows[v]]
+            ci = [j for v in kw.get('wrt', ['x', 'w']) for j in cols[v]]
+            exact = A[np.ix_(ri, ci)]
+            Ju = np.array(pu.compute_totals(return_format='array', **kw))
+            rec = {'kw': kw, 'unc_ok': bool(Ju.shape == exact.shape and (Ju == exact).all())}
+            try:
+                Jc = np.array(pc.compute_totals(return_format='array', **kw))
+                if Jc.shape != Ju.shape:
+                    rec['shape'] = [list(Jc.shape), list(Ju.shape)]
+                else:
+                    rec['bad'] = diff_entries(Jc, Ju)
+            except Exception as e:
+                rec['raised'] = type(e).__name__
+                rec['msg'] = str(e)[:200]
+            out.append(rec)
+        col = pc.driver._coloring_info.coloring
+        res = {'requests': out, 'col': None if col is None else colj(col)}
+        if col is not None:
+            res['sparsity'] = sparsity_of(col)
+            res['shape'] = [int(col._shape[0]), int(col._shape[1])]
+        return res
+
     def impl_partial(self, case):
         A = matrix(case)
         p0, c0, J0 = partial_problem(case, False)
@@ -592,6 +731,27 @@ class C03(Property):
                     {'fwd': n, 'rev': m, 'auto': min(m, n)}[case['mode']]:
                 return {'what': 'the coloring used needs more solves than no coloring',
                         'code': 'solves', 'total': impl['col']['total']}
+            return None
+        if case['k'] == 'requests':
+            for k, rec in enumerate(impl['requests']):
+                what = 'request %d compute_totals(%s) on the colored problem' % (
+                    k, ', '.join('%s=%s' % kv for kv in sorted(rec['kw'].items())))
+                if 'raised' in rec:
+                    return {'what': what + ' raised %s (the uncolored twin returns the totals)'
+                            % rec['raised'], 'code': 'request-raised', 'request': k,
+                            'msg': rec.get('msg')}
+                if 'shape' in rec:
+                    return {'what': what + ' has another shape than on the uncolored twin',
+                            'code': 'request-shape', 'request': k, 'shapes': rec['shape']}
+                if rec['bad']:
+                    return {'what': what + ' differs from the uncolored twin',
+                            'code': 'request-totals', 'request': k, 'entries': rec['bad']}
+            col = impl['col']
+            if col is not None and (impl['shape'] != [m, n] or col['total'] >
+                                    {'fwd': n, 'rev': m, 'auto': min(m, n)}[case['mode']]):
+                return {'what': "the driver's coloring is not one for the driver's own total jacobian "
+                                "or needs more solves than no coloring", 'code': 'request-coloring',
+                        'shape': impl['shape'], 'total': col['total']}
             return None
         if case['k'] == 'partial':
             if impl['err'] > PARTIAL_TOL or impl['err_exact'] > PARTIAL_TOL:
@@ -657,6 +817,13 @@ class C03(Property):
             if 'bidir_s' in impl['cols']:
                 b.append('MNCO/substitution subtractions:%s'
                          % ('nonempty' if impl['cols']['bidir_s']['subs'] else 'empty'))
+        elif case['k'] == 'requests':
+            col = impl['col']
+            b.append('requests: mode=%s %s first=%s coloring=%s' % (
+                case['mode'], 'dynamic' if case['dyn'] else 'fixed', case['first'],
+                'none' if col is None else 'bidirectional' if col['fwd'] and col['rev'] else
+                'fwd' if col['fwd'] else 'rev'))
+            b.append('requests: compute_totals calls compared=%d' % len(impl['requests']))
         elif case['k'] == 'total':
             col = impl['col']
             b.append('total: mode=%s %s %s scaling=%s' % (
@@ -692,7 +859,10 @@ class C03(Property):
                     reqs.append({'op': 'recover', 'col': impl['cols'][name], 'vals': vals, 'tag': name})
         elif impl.get('col') is not None:
             # the coloring is certified for the sparsity it was computed for (detected by the framework)
-            reqs.append({'op': 'certify', 'col': impl['col'], 'tag': 'used', 'nz': impl['sparsity']})
+            rq = {'op': 'certify', 'col': impl['col'], 'tag': 'used', 'nz': impl['sparsity']}
+            if 'shape' in impl:
+                rq['nrows'], rq['ncols'] = impl['shape']
+            reqs.append(rq)
             if case['k'] == 'total' and self.late is not None and \
                     impl['sparsity'] == sorted(case['nz']):
                 m, n = case['m'], case['n']
